@@ -67,6 +67,10 @@ def _isinstance_one(interp, v, t):
 def m_isinstance(interp, args, kwargs):
     v, t = args
     ts = t if isinstance(t, tuple) else (t,)
+    if isinstance(v, Sym) and isinstance(v.kind, Atom):
+        h = interp.pack.models.get("isinstance:" + v.kind.name)
+        if h is not None:
+            return ops.mk_bool(ops.b_or(*[h(interp, v, x) for x in ts]))
     return any(_isinstance_one(interp, v, x) for x in ts)
 
 
